@@ -28,6 +28,20 @@ func genC16(tier string, seed uint64, emit func(string)) {
 	if tier == "thorough" {
 		n = 4000
 	}
+	// whole-container reads against a writer that keeps taking one entry out and putting it back
+	for _, kind := range []string{"set", "hash", "zset", "list"} {
+		sizes := []int{40, 3000}
+		if tier == "thorough" {
+			sizes = []int{3, 40, 500, 3000, 8000}
+		}
+		for _, size := range sizes {
+			ms := 250
+			if tier == "thorough" {
+				ms = 1500
+			}
+			emit(fmt.Sprintf("snap %s %d %d %d %d", kind, size, 2+r.Intn(2), ms, r.U64()%1000000))
+		}
+	}
 	kindSets := []string{"incr", "incr,decrby,get", "append,get", "setnx,get", "setnx,del", "msetnx,get", "msetnx,del,setnx", "getset,set,get", "set,get,del",
 		"incr,append,set,get", "all", "all"}
 	for i := 0; i < n; i++ {
@@ -219,7 +233,198 @@ type verifServer interface {
 	VerifServeConn(conn net.Conn, tlsState interface{}) error
 }
 
+// runSnap: "snap <set|hash|zset|list> <size> <readers> <ms> <seed>": a container of <size> entries in the bundled example
+// store; one writer keeps taking one entry out and putting it back (SREM m; SADD m / HDEL f; HSET f v / ZREM m; ZADD s m /
+// LPOP; RPUSH x), readers keep reading the whole container.  Every reply of a reader must be a state the container was
+// in at some moment: entries of the universe only, none of them twice, at most one missing - a reply that shows an entry
+// twice, or lacks two, is a state that never existed (whatever happens to a reply after the command was executed is part
+// of the command).  The recorded history handed to the checker is empty: the verdict is the oracle's.
+func runSnap(toks []string) Result {
+	kind := toks[1]
+	size, _ := strconv.Atoi(toks[2])
+	readers, _ := strconv.Atoi(toks[3])
+	ms, _ := strconv.Atoi(toks[4])
+	tags := []string{"nt", "snap-" + kind, "size" + bucket(size)}
+	srv := exserver.NewServer()
+	var swg sync.WaitGroup
+	connect := func() (net.Conn, *bufio.Reader) {
+		cl, sv := net.Pipe()
+		swg.Add(1)
+		go func() {
+			defer swg.Done()
+			defer func() { recover() }()
+			srv.VerifServeConn(sv, nil)
+		}()
+		return cl, bufio.NewReaderSize(cl, 1<<16)
+	}
+	name := func(i int) string { return fmt.Sprintf("m:%06d", i) }
+	// one reply, as the list of its bulk elements (or nil for anything that is not an array of bulks)
+	readArray := func(br *bufio.Reader) ([]string, error) {
+		line, err := br.ReadString('\n')
+		if err != nil {
+			return nil, err
+		}
+		if len(line) == 0 || line[0] != '*' {
+			if len(line) > 0 && line[0] == '$' {
+				n, _ := strconv.Atoi(strings.TrimSpace(line[1:]))
+				if n >= 0 {
+					io.CopyN(io.Discard, br, int64(n+2))
+				}
+			}
+			return nil, nil
+		}
+		n, _ := strconv.Atoi(strings.TrimSpace(line[1:]))
+		out := make([]string, 0, n)
+		for i := 0; i < n; i++ {
+			h, err := br.ReadString('\n')
+			if err != nil {
+				return nil, err
+			}
+			if len(h) == 0 || h[0] != '$' {
+				out = append(out, strings.TrimSpace(h))
+				continue
+			}
+			l, _ := strconv.Atoi(strings.TrimSpace(h[1:]))
+			if l < 0 {
+				out = append(out, "<nil>")
+				continue
+			}
+			b := make([]byte, l+2)
+			if _, err := io.ReadFull(br, b); err != nil {
+				return nil, err
+			}
+			out = append(out, string(b[:l]))
+		}
+		return out, nil
+	}
+	fail := func(msg string) Result {
+		return Result{Obs: "not-linearizable # ", Oracle: "fail:" + msg, Tags: tags}
+	}
+	// fill
+	wc, wbr := connect()
+	defer wc.Close()
+	for lo := 0; lo < size; lo += 500 {
+		var argv []string
+		switch kind {
+		case "set":
+			argv = []string{"SADD", "c"}
+		case "hash":
+			argv = []string{"HMSET", "c"}
+		case "zset":
+			argv = []string{"ZADD", "c"}
+		default:
+			argv = []string{"RPUSH", "c"}
+		}
+		for i := lo; i < size && i < lo+500; i++ {
+			switch kind {
+			case "hash":
+				argv = append(argv, name(i), "v")
+			case "zset":
+				argv = append(argv, strconv.Itoa(i), name(i))
+			default:
+				argv = append(argv, name(i))
+			}
+		}
+		wc.SetDeadline(time.Now().Add(20 * time.Second))
+		wc.Write(reqS(argv...))
+		if _, err := readArray(wbr); err != nil {
+			return fail("filling the container failed: " + err.Error())
+		}
+	}
+	stop := make(chan struct{})
+	var wg sync.WaitGroup
+	var bad atomic.Value
+	var reads atomic.Int64
+	read := map[string][]string{"set": {"SMEMBERS", "c"}, "hash": {"HKEYS", "c"}, "zset": {"ZRANGE", "c", "0", "-1"}, "list": {"LRANGE", "c", "0", "-1"}}[kind]
+	for rd := 0; rd < readers; rd++ {
+		wg.Add(1)
+		go func() {
+			defer wg.Done()
+			c, br := connect()
+			defer c.Close()
+			for {
+				select {
+				case <-stop:
+					return
+				default:
+				}
+				c.SetDeadline(time.Now().Add(20 * time.Second))
+				c.Write(reqS(read...))
+				els, err := readArray(br)
+				if err != nil {
+					bad.CompareAndSwap(nil, "a reader got no reply: "+err.Error())
+					return
+				}
+				reads.Add(1)
+				seen := make(map[string]bool, len(els))
+				for _, e := range els {
+					if seen[e] {
+						bad.CompareAndSwap(nil, fmt.Sprintf("%s shows %q twice (%d elements of %d): a state the %s was never in", read[0], e, len(els), size, kind))
+						return
+					}
+					seen[e] = true
+					if !strings.HasPrefix(e, "m:") {
+						bad.CompareAndSwap(nil, fmt.Sprintf("%s shows %q, which was never stored", read[0], e))
+						return
+					}
+				}
+				if len(els) < size-1 || len(els) > size {
+					bad.CompareAndSwap(nil, fmt.Sprintf("%s shows %d elements while the %s always held %d or %d", read[0], len(els), kind, size-1, size))
+					return
+				}
+			}
+		}()
+	}
+	deadline := time.Now().Add(time.Duration(ms) * time.Millisecond)
+	rounds := 0
+	for i := 0; time.Now().Before(deadline) && bad.Load() == nil; i = (i + 7) % size {
+		var out, in []string
+		switch kind {
+		case "set":
+			out, in = []string{"SREM", "c", name(i)}, []string{"SADD", "c", name(i)}
+		case "hash":
+			out, in = []string{"HDEL", "c", name(i)}, []string{"HSET", "c", name(i), "v"}
+		case "zset":
+			out, in = []string{"ZREM", "c", name(i)}, []string{"ZADD", "c", strconv.Itoa(i), name(i)}
+		default:
+			out = []string{"LPOP", "c"}
+		}
+		wc.SetDeadline(time.Now().Add(20 * time.Second))
+		wc.Write(reqS(out...))
+		if kind == "list" {
+			line, err := wbr.ReadString('\n')
+			if err != nil || len(line) == 0 || line[0] != '$' {
+				bad.CompareAndSwap(nil, "LPOP on a non-empty list did not answer with an element")
+				break
+			}
+			l, _ := strconv.Atoi(strings.TrimSpace(line[1:]))
+			b := make([]byte, l+2)
+			io.ReadFull(wbr, b)
+			in = []string{"RPUSH", "c", string(b[:l])}
+		} else if _, err := readArray(wbr); err != nil {
+			break
+		}
+		wc.Write(reqS(in...))
+		if _, err := readArray(wbr); err != nil {
+			break
+		}
+		rounds++
+	}
+	close(stop)
+	wg.Wait()
+	wc.Close()
+	swg.Wait()
+	tags = append(tags, "reads"+bucket(int(reads.Load())))
+	if b := bad.Load(); b != nil {
+		return fail(b.(string))
+	}
+	return Result{Obs: "linearizable # ", Oracle: "ok", Tags: tags}
+}
+
 func runC16(toks []string) Result {
+	if toks[0] == "snap" {
+		return runSnap(toks)
+	}
 	store := toks[1]
 	clients, _ := strconv.Atoi(toks[2])
 	ops, _ := strconv.Atoi(toks[3])
